@@ -2,25 +2,34 @@ import GoldModel.Lemmas.ExprRoundTrip
 /-!
 # C06 — the expression round trip, for expressions of every size
 
-`Ex` is the abstract syntax the property speaks about: atoms (identifiers, the keyword kinds the
-parser accepts as identifiers, literals), parenthesised expressions and binary operations over the
-23 operators of the eight binary levels.  `Ex.toks` prints an expression to its tokens — any
-positions, any spellings — and `Ex.tree` is the intended tree.  `Ex.WF L` says the expression is
-printed with the parentheses its shape needs and no others are *required*: a binary node of level
-`m` may have a left operand of level ≤ `m` (left association) and a right operand of a tighter
-level; anything else must be (and may always be) wrapped in `( … )`.
+`Ex` is the abstract syntax the property speaks about — the FULL expression grammar of `parse_expr`:
+atoms (identifiers, the keyword kinds the parser accepts as identifiers, literals), parenthesised
+expressions, binary operations over the 23 operators of the eight binary levels, the prefix operators
+`not bNot @ inherited -` (operand: a primary), postfix `++` / `--` (operand: a member-access chain),
+member-access chains `d1 . d2 . … . dn` whose elements are identifiers, method calls `f(e1, …, en)`
+(n ≥ 0, arguments are full expressions) and array accesses `a[e]`, and set literals `[p1, …, pn]`
+(n ≥ 0, items are primaries).  `Args` is the mutual type of comma-separated lists; it carries the
+comma tokens.  `Ex.toks` prints an expression to its tokens — any positions, any spellings — and
+`Ex.tree` is the intended tree, built with the very node functions of the grammar's semantic actions
+(kinds, identifiers, ranges, attributes).  `Ex.WF L` says the expression is printed with the
+parentheses its shape needs and no others are *required*: a binary node of level `m` may have a left
+operand of level ≤ `m` (left association) and a right operand of a tighter level; the operand of a
+prefix operator and the items of a set literal are primaries; `++`/`--` follow a chain; a chain is
+nested to the left and built from elements; anything else must be (and, where the grammar has an
+expression, may always be) wrapped in `( … )`.
 
 `expr_roundtrip` states that `parse_expr` — the model of `body_parser.rs`, whose operator tables
 are regenerated from the source on every run (E5) and whose output is compared byte-for-byte with
 the implementation by the correspondence check — returns EXACTLY `Ex.tree e` (kinds, identifiers,
 ranges, operator attributes), consumes EXACTLY the tokens of `e`, and emits NO diagnostic, for
-every well-formed `e` and every continuation that cannot extend an expression.  No bound on the
-size or depth of `e`; the proof is an induction over `Ex`, level by level (`Lemmas/ExprRoundTrip`),
-on top of the big-step rules derived from the interpreter (`Lemmas/BigStep`).
+every well-formed `e` and every continuation that cannot extend an expression.  In particular no
+recovery branch of the list parsers (`parse_separated_list_w_context` and its recursive part) and no
+dangling-dot branch of `parse_dot_ops` fires on well-formed input.  No bound on the size or depth of
+`e`; the proof is a mutual structural induction over `Ex` / `Args`, level by level
+(`Lemmas/ExprRoundTrip`), on top of the big-step rules derived from the interpreter (`Lemmas/BigStep`).
 
-Not covered by this theorem (covered by the generator oracle and by correspondence): unary
-operators, member access / calls / indexing inside expressions, set literals, statements and
-declarations.
+Not covered by this theorem (covered by the generator oracle and by correspondence): statements,
+declarations, OQL expressions, comments between the tokens of an expression.
 -/
 namespace Gold.C06
 open Gold Gold.Peg Gold.Gram
@@ -57,6 +66,25 @@ theorem expr_roundtrip_memo (e : Ex) (h : e.WF 8) (k : List Tok) (hk : Stop 8 k)
   | nil => rfl
   | cons x xs => exact absurd (h3 x (by rw [hd]; exact List.mem_cons_self)) (by simp)
 
+/-- **member-access chains**: `parse_dot_ops` (the parser of assignment targets and of the operand of
+    `++`/`--`) on a well-formed chain returns the left-nested tree; the dangling-dot branch does not fire -/
+theorem chain_roundtrip (e : Ex) (hc : e.isChain = true) (h : e.WF 0) (k : List Tok) (hk : StopD k) :
+    ∃ f, runP Γ Δ f (.ref nDotOps) (e.toks ++ k) = (.ok k e.tree, []) :=
+  pd1_of_pd2 e ((invEx e).chain h hc).1 k hk
+
+/-- **argument lists**: `parse_separated_list_w_context(parse_expr, Comma)` before a closing `)` / `]` returns exactly
+    the trees of the arguments (none for the empty list) and takes NO recovery branch: no diagnostic, nothing skipped -/
+theorem args_roundtrip (as : Args) (h : as.WF 8) (c : Tok) (k : List Tok)
+    (hc : c.kind = Kind.CBracket ∨ c.kind = Kind.CSqrBracket) :
+    ∃ f, runP Γ Δ f (sepListCtx (.ref nExpr) nExprRec) (as.toks ++ c :: k) = (.ok (c :: k) (Tree.list as.trees), []) :=
+  ((invArgs as).expr h c k hc).2
+
+/-- the same for the items of a set literal (`parse_primary` items) -/
+theorem items_roundtrip (as : Args) (h : as.WF 0) (c : Tok) (k : List Tok)
+    (hc : c.kind = Kind.CBracket ∨ c.kind = Kind.CSqrBracket) :
+    ∃ f, runP Γ Δ f (sepListCtx (.ref nPrimary) nPrimaryRec) (as.toks ++ c :: k) = (.ok (c :: k) (Tree.list as.trees), []) :=
+  ((invArgs as).prim h c k hc).2
+
 /-! ## non-vacuity: `a + b * (c - d) < x or y` is well formed, and so is a left chain -/
 
 private def tk (k : Kind) (v : String) (c : Nat) : Tok := ⟨k, v, ⟨⟨0, c⟩, ⟨0, c + 1⟩⟩⟩
@@ -71,18 +99,85 @@ private def sample : Ex :=
       (tk Kind.LessThan "<" 9) (idt "x" 10))
     (tk Kind.Or "or" 11) (idt "y" 12)
 
-example : sample.WF 8 := by
-  simp only [sample, idt, tk, Ex.WF, atomOK]
-  decide +kernel
+example : sample.WF 8 := (wfb_iff _ 8).mp (by decide +kernel)
 
-example : (Ex.bin (.bin (idt "a" 0) (tk Kind.Minus "-" 1) (idt "b" 2)) (tk Kind.Minus "-" 3) (idt "c" 4)).WF 8 := by
-  simp only [idt, tk, Ex.WF, atomOK]
-  decide +kernel
+example : (Ex.bin (.bin (idt "a" 0) (tk Kind.Minus "-" 1) (idt "b" 2)) (tk Kind.Minus "-" 3) (idt "c" 4)).WF 8 :=
+  (wfb_iff _ 8).mp (by decide +kernel)
 
 /-- and a shape that is NOT well formed without parentheses: `a - (b - c)` printed as `a - b - c`
     would be the right-nested tree; `WF` rejects it -/
-example : ¬ (Ex.bin (idt "a" 0) (tk Kind.Minus "-" 1) (.bin (idt "b" 2) (tk Kind.Minus "-" 3) (idt "c" 4))).WF 8 := by
-  simp only [idt, tk, Ex.WF, atomOK]
-  decide +kernel
+example : ¬ (Ex.bin (idt "a" 0) (tk Kind.Minus "-" 1) (.bin (idt "b" 2) (tk Kind.Minus "-" 3) (idt "c" 4))).WF 8 :=
+  fun h => absurd ((wfb_iff _ 8).mpr h) (by decide +kernel)
+
+/-! ### every new constructor -/
+
+/-- prefix operators: `not - a` -/
+private def sPre : Ex := .pre (tk Kind.Not "not" 0) (.pre (tk Kind.Minus "-" 1) (idt "a" 2))
+/-- postfix on a chain: `a . b ++` -/
+private def sPost : Ex := .post (.dot (idt "a" 0) (tk Kind.Dot "." 1) (idt "b" 2)) (tk Kind.Increment "++" 3)
+/-- `f ( )` -/
+private def sCall0 : Ex := .call (tk Kind.Identifier "f" 0) (tk Kind.OBracket "(" 1) .nil (tk Kind.CBracket ")" 2)
+/-- `obj . f ( x , y + 1 ) . g [ i ] . h` -/
+private def sChain : Ex :=
+  .dot
+    (.dot
+      (.dot (idt "obj" 0) (tk Kind.Dot "." 1)
+        (.call (tk Kind.Identifier "f" 2) (tk Kind.OBracket "(" 3)
+          (.more (idt "x" 4) (tk Kind.Comma "," 5)
+            (.one (.bin (idt "y" 6) (tk Kind.Plus "+" 7) (.atom (tk Kind.NumericLiteral "1" 8)))))
+          (tk Kind.CBracket ")" 9)))
+      (tk Kind.Dot "." 10)
+      (.index (tk Kind.Identifier "g" 11) (tk Kind.OSqrBracket "[" 12) (idt "i" 13) (tk Kind.CSqrBracket "]" 14)))
+    (tk Kind.Dot "." 15) (idt "h" 16)
+/-- `[ a , ( b + c ) , [ ] , - d ]` -/
+private def sSet : Ex :=
+  .set (tk Kind.OSqrBracket "[" 0)
+    (.more (idt "a" 1) (tk Kind.Comma "," 2)
+      (.more (.paren (tk Kind.OBracket "(" 3) (.bin (idt "b" 4) (tk Kind.Plus "+" 5) (idt "c" 6)) (tk Kind.CBracket ")" 7))
+        (tk Kind.Comma "," 8)
+        (.more (.set (tk Kind.OSqrBracket "[" 9) .nil (tk Kind.CSqrBracket "]" 10)) (tk Kind.Comma "," 11)
+          (.one (.pre (tk Kind.Minus "-" 12) (idt "d" 13))))))
+    (tk Kind.CSqrBracket "]" 14)
+/-- all of them under binary operators: `not - a * a . b ++ + f ( ) = obj.f(x, y + 1).g[i].h and [ … ] in [ … ]` -/
+private def sAll : Ex :=
+  .bin
+    (.bin (.bin (.bin sPre (tk Kind.Asterisk "*" 20) sPost) (tk Kind.Plus "+" 21) sCall0) (tk Kind.Equals "=" 22) sChain)
+    (tk Kind.And "and" 23) (.bin sSet (tk Kind.In "in" 24) sSet)
+
+example : sPre.WF 8 := (wfb_iff _ 8).mp (by decide +kernel)
+example : sPost.WF 8 := (wfb_iff _ 8).mp (by decide +kernel)
+example : sCall0.WF 8 := (wfb_iff _ 8).mp (by decide +kernel)
+example : sChain.WF 8 := (wfb_iff _ 8).mp (by decide +kernel)
+example : sSet.WF 8 := (wfb_iff _ 8).mp (by decide +kernel)
+example : sAll.WF 8 := (wfb_iff _ 8).mp (by decide +kernel)
+
+/-- the theorem applies: `parse_expr` on the tokens of `sAll` returns `sAll.tree`, no diagnostics -/
+example : ∃ f, runP Γ Δ f (.ref nExpr) sAll.toks = (.ok [] sAll.tree, []) :=
+  expr_roundtrip_eof sAll ((wfb_iff _ 8).mp (by decide +kernel))
+
+/-! ### negative examples: shapes that need parentheses (or are no expressions) are rejected by `WF` -/
+
+/-- `- (a + b)` printed as `- a + b` is `(- a) + b` -/
+example : ¬ (Ex.pre (tk Kind.Minus "-" 0) (.bin (idt "a" 1) (tk Kind.Plus "+" 2) (idt "b" 3))).WF 8 :=
+  fun h => absurd ((wfb_iff _ 8).mpr h) (by decide +kernel)
+
+/-- a member access on something that is not a chain: `( a ) . b`, `12 . b` -/
+example : ¬ (Ex.dot (.paren (tk Kind.OBracket "(" 0) (idt "a" 1) (tk Kind.CBracket ")" 2)) (tk Kind.Dot "." 3) (idt "b" 4)).WF 8 :=
+  fun h => absurd ((wfb_iff _ 8).mpr h) (by decide +kernel)
+example : ¬ (Ex.dot (.atom (tk Kind.NumericLiteral "12" 0)) (tk Kind.Dot "." 3) (idt "b" 4)).WF 8 :=
+  fun h => absurd ((wfb_iff _ 8).mpr h) (by decide +kernel)
+
+/-- a right-nested chain `a . (b . c)` has no parenthesis-free printing -/
+example : ¬ (Ex.dot (idt "a" 0) (tk Kind.Dot "." 1) (.dot (idt "b" 2) (tk Kind.Dot "." 3) (idt "c" 4))).WF 8 :=
+  fun h => absurd ((wfb_iff _ 8).mpr h) (by decide +kernel)
+
+/-- the items of a set literal are primaries: `[ a + b ]` is rejected, `++` needs a chain: `12 ++` is rejected,
+    and a trailing comma `f ( a , )` is no argument list -/
+example : ¬ (Ex.set (tk Kind.OSqrBracket "[" 0) (.one (.bin (idt "a" 1) (tk Kind.Plus "+" 2) (idt "b" 3))) (tk Kind.CSqrBracket "]" 4)).WF 8 :=
+  fun h => absurd ((wfb_iff _ 8).mpr h) (by decide +kernel)
+example : ¬ (Ex.post (.atom (tk Kind.NumericLiteral "12" 0)) (tk Kind.Increment "++" 1)).WF 8 :=
+  fun h => absurd ((wfb_iff _ 8).mpr h) (by decide +kernel)
+example : ¬ (Ex.call (tk Kind.Identifier "f" 0) (tk Kind.OBracket "(" 1) (.more (idt "a" 2) (tk Kind.Comma "," 3) .nil) (tk Kind.CBracket ")" 4)).WF 8 :=
+  fun h => absurd ((wfb_iff _ 8).mpr h) (by decide +kernel)
 
 end Gold.C06
